@@ -13,13 +13,16 @@ set_option linter.unusedVariables false
 /-- where the decompiler writes blank lines -/
 def dLayout : Layout := { afterFactory := 1, afterGlobals := 1, afterInstance := 1, afterHGlobals := 1, betweenHandlers := 1 }
 
-theorem dHandler_eq (s : Spec.Script) (h : Handler) (hf : FragH s h = true) : dHandler h = prHandlerL dLayout s h := by
-  obtain ⟨hm, _, _, _, hg, _⟩ := fragH_spec s h hf
-  have hgl : hGlobals s h = [] := by simp [hGlobals, globalsUsed_nil h s.globals hg]
-  simp [dHandler, prHandlerL, prPre, hm, hgl, handlerKw, globalLines]
+theorem dGlobalLines_eq (gl : List Spec.Name) : dGlobalLines gl = globalLines gl ++ (if gl = [] then [] else nls dLayout.afterHGlobals) := by
+  cases gl <;> simp [dGlobalLines, globalLines, dLayout, nls]
+
+theorem dHandler_eq (s : Spec.Script) (h : Handler) (hf : FragH s h = true) : dHandler s h = prHandlerL dLayout s h := by
+  obtain ⟨hm, _⟩ := fragH_spec s h hf
+  have hgl : hGlobalsSorted s h = hGlobals s h := rfl
+  simp [dHandler, prHandlerL, prPre, hm, hgl, handlerKw, dGlobalLines_eq]
 
 theorem dHandlers_eq (s : Spec.Script) : ∀ (hs : List Handler), (∀ h ∈ hs, FragH s h = true) →
-    dHandlers hs true = prHandlersL dLayout s hs ∧ (hs ≠ [] → dHandlers hs false = .nl :: prHandlersL dLayout s hs)
+    dHandlers s hs true = prHandlersL dLayout s hs ∧ (hs ≠ [] → dHandlers s hs false = .nl :: prHandlersL dLayout s hs)
   | [], _ => ⟨rfl, fun h => absurd rfl h⟩
   | [h], hf => by
     have e := dHandler_eq s h (hf h (by simp))
@@ -28,11 +31,11 @@ theorem dHandlers_eq (s : Spec.Script) : ∀ (hs : List Handler), (∀ h ∈ hs,
     have e := dHandler_eq s h (hf h (by simp))
     obtain ⟨_, ih⟩ := dHandlers_eq s (h2 :: hs) (fun x hx => hf x (by simp [hx]))
     have ih' := ih (by simp)
-    have e1 : dHandlers (h :: h2 :: hs) true = dHandler h ++ dHandlers (h2 :: hs) false := by
-      show (if true = true then [] else [Tok.nl]) ++ dHandler h ++ dHandlers (h2 :: hs) false = _
+    have e1 : dHandlers s (h :: h2 :: hs) true = dHandler s h ++ dHandlers s (h2 :: hs) false := by
+      show (if true = true then [] else [Tok.nl]) ++ dHandler s h ++ dHandlers s (h2 :: hs) false = _
       simp
-    have e2 : dHandlers (h :: h2 :: hs) false = .nl :: (dHandler h ++ dHandlers (h2 :: hs) false) := by
-      show (if false = true then [] else [Tok.nl]) ++ dHandler h ++ dHandlers (h2 :: hs) false = _
+    have e2 : dHandlers s (h :: h2 :: hs) false = .nl :: (dHandler s h ++ dHandlers s (h2 :: hs) false) := by
+      show (if false = true then [] else [Tok.nl]) ++ dHandler s h ++ dHandlers s (h2 :: hs) false = _
       simp
     have e3 : prHandlersL dLayout s (h :: h2 :: hs) = prHandlerL dLayout s h ++ (.nl :: prHandlersL dLayout s (h2 :: hs)) := by
       show prHandlerL dLayout s h ++ (nls dLayout.betweenHandlers ++ prHandlersL dLayout s (h2 :: hs)) = _
@@ -63,14 +66,25 @@ theorem plainIdB_spec (n : Spec.Name) (h : plainIdB n = true) : PlainId n := by
   obtain ⟨⟨⟨⟨h1, h2⟩, h3⟩, h4⟩, h5⟩ := h
   exact ⟨h1, h2, h3, h4, h5⟩
 
+mutual
 /-- `Spec.Frag env e`, decidable form -/
 def fragEB (env : Env) : Expr → Bool
   | .int _ => true
+  | .str _ => true
+  | .sym _ => true
   | .var k n => plainIdB n && resolvesTo env n k
   | .un _ a => fragEB env a
   | .bin _ a b => fragEB env a && fragEB env b
+  | .field a => fragEB env a
+  | .call f as => plainIdB f && !env.isVar f && fragLB env as
+  | .list as => fragLB env as
   | _ => false
+def fragLB (env : Env) : List Expr → Bool
+  | [] => true
+  | e :: es => fragEB env e && fragLB env es
+end
 
+mutual
 theorem fragEB_spec (env : Env) : ∀ (e : Expr), fragEB env e = true → Spec.Frag env e
   | .int _, _ => by simp [Spec.Frag]
   | .var k n, h => by
@@ -85,20 +99,36 @@ theorem fragEB_spec (env : Env) : ∀ (e : Expr), fragEB env e = true → Spec.F
     simp only [fragEB, Bool.and_eq_true] at h
     simp only [Spec.Frag]
     exact ⟨fragEB_spec env a h.1, fragEB_spec env b h.2⟩
-  | .str _, h => by simp [fragEB] at h
+  | .field a, h => by
+    simp only [fragEB] at h
+    simp only [Spec.Frag]
+    exact fragEB_spec env a h
+  | .call f as, h => by
+    simp only [fragEB, Bool.and_eq_true, Bool.not_eq_true'] at h
+    simp only [Spec.Frag]
+    exact ⟨plainIdB_spec f h.1.1, h.1.2, fragLB_spec env as h.2⟩
+  | .list as, h => by
+    simp only [fragEB] at h
+    simp only [Spec.Frag]
+    exact fragLB_spec env as h
+  | .str _, _ => by simp [Spec.Frag]
   | .float _ _, h => by simp [fragEB] at h
-  | .sym _, h => by simp [fragEB] at h
+  | .sym _, _ => by simp [Spec.Frag]
   | .me, h => by simp [fragEB] at h
-  | .field _, h => by simp [fragEB] at h
-  | .call _ _, h => by simp [fragEB] at h
   | .mcall _ _ _, h => by simp [fragEB] at h
-  | .list _, h => by simp [fragEB] at h
   | .plist _, h => by simp [fragEB] at h
   | .the _ _ _, h => by simp [fragEB] at h
   | .key _, h => by simp [fragEB] at h
   | .movie _, h => by simp [fragEB] at h
   | .oprop _ _, h => by simp [fragEB] at h
   | .chunk _ _ _ _, h => by simp [fragEB] at h
+theorem fragLB_spec (env : Env) : ∀ (es : List Expr), fragLB env es = true → Spec.FragL env es
+  | [], _ => by simp [Spec.FragL]
+  | e :: es, h => by
+    simp only [fragLB, Bool.and_eq_true] at h
+    simp only [Spec.FragL]
+    exact ⟨fragEB_spec env e h.1, fragLB_spec env es h.2⟩
+end
 
 /-- assignment target: a variable the environment classifies the way the tree does -/
 def lvB (env : Env) : Expr → Bool
@@ -120,6 +150,8 @@ theorem lvB_spec (env : Env) (lv : Expr) (h : lvB env lv = true) : LvOk env lv :
 
 def fragSB (env : Env) : Stmt → Bool
   | .set lv v => lvB env lv && fragEB env v
+  | .call f as => cmdName f && !(Tok.id f).kw "sound" && !(Tok.id f).kw "go" && !env.isVar f && fragLB env as
+  | .exit => true
   | _ => false
 
 def fragSsB (env : Env) : List Stmt → Bool
@@ -132,6 +164,11 @@ theorem fragSB_spec (env : Env) (s : Stmt) (h : fragSB env s = true) : Spec.Frag
     simp only [fragSB, Bool.and_eq_true] at h
     simp only [Spec.FragS]
     exact ⟨lvB_spec env lv h.1, fragEB_spec env v h.2⟩
+  | call f as =>
+    simp only [fragSB, Bool.and_eq_true, Bool.not_eq_true'] at h
+    simp only [Spec.FragS]
+    exact ⟨Or.inr (Or.inr (Or.inr ⟨h.1.1.1.1, h.1.1.1.2, h.1.1.2, h.1.2⟩)), fragLB_spec env as h.2⟩
+  | exit => simp [Spec.FragS]
   | _ => simp [fragSB] at h
 
 theorem fragSsB_spec (env : Env) : ∀ (ss : List Stmt), fragSsB env ss = true → Spec.FragSs env ss
